@@ -12,8 +12,6 @@ namespace Tv
 /-- `EPS` of tea-core/src/prelude.rs (checked against the source by `Generated.eps`). -/
 def EPS : Rat := 1 / 100000000000000
 
-/-- `min_periods.unwrap_or(window / 2).min(window).max(k)` (k = 0 when there is no `.max`) -/
-def effMp (mp : Option Nat) (w k : Nat) : Nat := max (min (mp.getD (w / 2)) w) k
 
 /-! ### additive power sums (sum, mean, std, var, skew, kurt) -/
 
@@ -126,13 +124,6 @@ def wmaRoll (mp : Nat) : Roll Wma (Option Rat) Out :=
 
 /-! ### entry points: closure run over the callback arguments of the driver -/
 
-inductive Feat where
-  | sum | mean | ewm | wma | std | var | skew | kurt
-deriving DecidableEq, Repr
-
-/-- the `.max(k)` of each entry point (checked against the source by `Generated.maskTable`) -/
-def Feat.minK : Feat → Nat
-  | .std => 2 | .var => 2 | .skew => 3 | .kurt => 4 | _ => 0
 
 def tsFeat (f : Feat) (sh : Shape) (xs : List (Option Rat)) (w : Nat) (mp : Option Nat) : List Out :=
   let m := effMp mp w f.minK
